@@ -166,11 +166,177 @@ fn flip_hex_digit(rng: &mut Rng, s: &str) -> String {
     String::from_utf8(b).unwrap()
 }
 
-pub fn run_history(rec: &mut Recorder, seed: u64, hidx: u64, len: usize, nkeys: usize, tampers: usize) {
-    let mut rng = Rng::for_case(seed, 104, hidx);
-    let cfg = Cfg::gen(&mut rng);
-    let mode = hidx % 4 % 3;
-    let ops = gen_history(&mut rng, if mode == 1 { len * 2 } else { len }, nkeys, mode);
+fn copy_dir(from: &Path, to: &Path) -> std::io::Result<()> {
+    std::fs::create_dir_all(to)?;
+    for e in std::fs::read_dir(from)? {
+        let e = e?;
+        let p = e.path();
+        let t = to.join(e.file_name());
+        if p.is_dir() {
+            copy_dir(&p, &t)?;
+        } else {
+            std::fs::copy(&p, &t)?;
+        }
+    }
+    Ok(())
+}
+
+/// Rejection half for file contents: copy the store directory, find a garbage-collection edit the
+/// verifier has not processed yet, drop / duplicate-with-new-timestamp / modify ONE entry of one
+/// of the files that edit removed (keeping the file's name, so every recorded digest still
+/// matches), and run the real LsmVerifier on the copy: it must report corruption.  The same copy
+/// untampered must verify (otherwise the run is inconclusive and only counted).
+fn tamper_sst_under_gc(rec: &mut Recorder, rng: &mut Rng, sim: &Sim, root: &str, tag: &str) {
+    let frags = list_fragments(root);
+    if frags.len() < 3 {
+        return;
+    }
+    // fragments the verifier will process: all but the last two.  Any file a transaction in them
+    // adds (a compaction / GC / flush output) or removes (an input) is a candidate.
+    let mut cands: Vec<(String, &'static str)> = vec![];
+    for f in &frags[..frags.len() - 2] {
+        let Ok(edits) = read_fragment(f) else { return };
+        for e in edits.iter().skip(1) {
+            let zero = setsum::Setsum::default().hexdigest();
+            let gc = !e.rmed.is_empty() && e.d.as_deref() != Some(zero.as_str());
+            for a in &e.added {
+                cands.push((a.clone(), if gc { "gc-output" } else if e.rmed.is_empty() { "flush-output" } else { "compaction-output" }));
+            }
+            for r in &e.rmed {
+                cands.push((r.clone(), if gc { "gc-input" } else { "compaction-input" }));
+            }
+        }
+    }
+    if cands.is_empty() {
+        rec.count("sst_tamper.no_unverified_transaction");
+        return;
+    }
+    // pick the role first so that the rare roles (GC and compaction files) are not drowned out
+    let mut roles: Vec<&'static str> = cands.iter().map(|c| c.1).collect();
+    roles.sort();
+    roles.dedup();
+    let want = roles[rng.below(roles.len() as u64) as usize];
+    let of_role: Vec<&(String, &'static str)> = cands.iter().filter(|c| c.1 == want).collect();
+    let (victim, role) = of_role[rng.below(of_role.len() as u64) as usize].clone();
+    let copy = format!("{}.tamper", root);
+    let _ = std::fs::remove_dir_all(&copy);
+    if copy_dir(Path::new(root), Path::new(&copy)).is_err() {
+        return;
+    }
+    let verdict_of = |dir: &str| -> String {
+        let opts = sim.cfg.options(dir);
+        let r = match lsmtk::LsmVerifier::open(opts) {
+            Ok(mut v) => v.verify(),
+            Err(e) => Err(e),
+        };
+        match r {
+            Ok(()) => "ok".to_string(),
+            Err(e) => match lsmtk::backoff_path(&e) {
+                Some(p) => format!("backoff:{}", p),
+                None => {
+                    let s = format!("{:?}", e);
+                    if s.contains("corruption") { "corruption".to_string() } else { format!("error:{}", s.chars().filter(|c| !c.is_whitespace()).take(80).collect::<String>()) }
+                }
+            },
+        }
+    };
+    // locate the victim in the copy (trash/ first, as the verifier does, then sst/)
+    let name = format!("{}.sst", victim);
+    let vpath = [format!("{}/trash/{}", copy, name), format!("{}/sst/{}", copy, name)].into_iter().find(|p| Path::new(p).exists());
+    let Some(vpath) = vpath else {
+        rec.count("sst_tamper.victim_not_present");
+        let _ = std::fs::remove_dir_all(&copy);
+        return;
+    };
+    let Ok(mut entries) = read_sst(&vpath) else {
+        let _ = std::fs::remove_dir_all(&copy);
+        return;
+    };
+    if entries.is_empty() {
+        let _ = std::fs::remove_dir_all(&copy);
+        return;
+    }
+    let i = rng.below(entries.len() as u64) as usize;
+    let kind = match rng.below(3) {
+        0 => {
+            entries.remove(i);
+            "drop"
+        }
+        1 => {
+            entries[i].2 = Some(b"tampered".to_vec());
+            "modify"
+        }
+        _ => {
+            // "duplicate": the same key and payload once more under an unused older timestamp
+            let mut e = entries[i].clone();
+            let next_ts = entries.get(i + 1).filter(|n| n.0 == e.0).map(|n| n.1 + 1).unwrap_or(0);
+            if e.1 == 0 || next_ts >= e.1 {
+                entries.remove(i);
+                "drop"
+            } else {
+                e.1 -= 1;
+                entries.insert(i + 1, e);
+                "duplicate"
+            }
+        }
+    };
+    if entries.is_empty() {
+        // an SST cannot be empty; fall back to modifying the single entry
+        let _ = std::fs::remove_dir_all(&copy);
+        rec.count("sst_tamper.single_entry_file_skipped");
+        return;
+    }
+    // rebuild the file under the same name
+    let tmp = format!("{}.rebuild", vpath);
+    let built = (|| -> Result<(), String> {
+        use sst::Builder;
+        let mut b = sst::SstBuilder::new(sst::SstOptions::default(), &tmp).map_err(|e| format!("{:?}", e))?;
+        for (k, t, v) in &entries {
+            match v {
+                Some(v) => b.put(k, *t, v).map_err(|e| format!("{:?}", e))?,
+                None => b.del(k, *t).map_err(|e| format!("{:?}", e))?,
+            }
+        }
+        b.seal().map_err(|e| format!("{:?}", e))?;
+        Ok(())
+    })();
+    if built.is_err() {
+        let _ = std::fs::remove_dir_all(&copy);
+        return;
+    }
+    // control: the untampered copy must verify
+    let control_dir = format!("{}.control", root);
+    let _ = std::fs::remove_dir_all(&control_dir);
+    let control = if copy_dir(Path::new(root), Path::new(&control_dir)).is_ok() { verdict_of(&control_dir) } else { "copy-failed".to_string() };
+    let _ = std::fs::remove_dir_all(&control_dir);
+    let _ = std::fs::remove_file(&vpath);
+    let _ = std::fs::rename(&tmp, &vpath);
+    let tampered = verdict_of(&copy);
+    let _ = std::fs::remove_dir_all(&copy);
+    rec.count(&format!("sst_tamper.{}.{}", kind, role));
+    if control != "ok" {
+        rec.count("sst_tamper.inconclusive_control_not_ok");
+        return;
+    }
+    let v = if tampered == "ok" {
+        Verdict::Fail { class: "tampered-sst-entry-accepted".into(), detail: format!("{} {} one entry of {} ({} of an unverified transaction); LsmVerifier::verify still returns ok", tag, kind, &victim[..12], role) }
+    } else {
+        Verdict::Ok
+    };
+    rec.case(&format!("# {} sst-tamper {} {}", tag, kind, &victim[..12]), "#", v, Some(fnv(format!("{}{}{}", tag, kind, victim).as_bytes())));
+}
+
+pub fn run_history(rec: &mut Recorder, seed: u64, hidx: u64, len: usize, nkeys: usize, tampers: usize, gc_focus: bool) {
+    let mut rng = Rng::for_case(seed, if gc_focus { 1040 } else { 104 }, hidx);
+    let mut cfg = Cfg::gen(&mut rng);
+    let mode = if gc_focus { 1 } else { hidx % 4 % 3 };
+    let mut ops = gen_history(&mut rng, if mode == 1 { len * if gc_focus { 4 } else { 2 } } else { len }, nkeys, mode);
+    if gc_focus {
+        // garbage collections at the last level, manifest fragments rolling over after nearly every
+        // transaction, and no verifier pass consuming them: GC edits pile up unverified
+        cfg.mani_ratio = 1;
+        ops.retain(|o| !matches!(o, Op::Verify));
+    }
     let root = scratch_dir(&format!("c04.{}", hidx));
     rec.aux(&format!("history {} cfg {} ops {}", hidx, cfg.render(), ops.iter().map(|o| o.render()).collect::<Vec<_>>().join(" ")));
     let mut sim = match Sim::open(&root, &cfg) {
@@ -204,6 +370,12 @@ pub fn run_history(rec: &mut Recorder, seed: u64, hidx: u64, len: usize, nkeys: 
             break;
         }
         sim.chosen.clear();
+        if let Op::Verify = op {
+            // the pass itself already ran inside apply(); nothing more here
+        }
+        if gc_focus && matches!(op, Op::Flush | Op::Compact(_)) && taint.is_none() && rng.chance(1, 3) {
+            tamper_sst_under_gc(rec, &mut rng, &sim, &root, &tag);
+        }
         if let Op::Verify = op {
             rec.count(if sim.last_verify == "ok" { "verifier.ok" } else if sim.last_verify.starts_with("backoff") { "verifier.backoff" } else { "verifier.error" });
             if sim.last_verify.starts_with("error") {
@@ -271,6 +443,17 @@ pub fn run_history(rec: &mut Recorder, seed: u64, hidx: u64, len: usize, nkeys: 
             }
         }
         file_digests.sort();
+        // the manifest object the running store holds must list exactly the version's files
+        {
+            let (mut live_strs, live_o) = sim.kvs().verif_tree().verif_manifest();
+            live_strs.sort();
+            if live_strs != file_digests {
+                bad.push(format!("the store's in-memory manifest lists {} files, its version holds {}", live_strs.len(), file_digests.len()));
+            }
+            if live_o.as_deref() != Some(sum_meta.hexdigest().as_str()) {
+                bad.push("the store's in-memory manifest O != sum of the version's files".to_string());
+            }
+        }
         if newest.is_ok() {
             if file_digests != listed {
                 bad.push(format!("manifest lists {} files, version holds {}", listed.len(), file_digests.len()));
@@ -386,7 +569,10 @@ pub fn run(args: &Args) {
     let (nh, len, tampers) = if args.thorough { (300, 100, 3) } else { (60, 50, 2) };
     for h in 0..nh {
         let nkeys = if h % 3 == 0 { 4 } else if h % 3 == 1 { 7 } else { 12 };
-        run_history(&mut rec, args.seed, h, len, nkeys, tampers);
+        run_history(&mut rec, args.seed, h, len, nkeys, tampers, false);
+    }
+    for h in 0..(if args.thorough { 60 } else { 12 }) {
+        run_history(&mut rec, args.seed, h, len, if h % 2 == 0 { 5 } else { 9 }, 0, true);
     }
     rec.finish(
         "store histories as in C01; after every manifest transaction (flush, compaction step, reopen) and a third of the writes: books of the current state (manifest O vs sum of listed SST setsums vs setsums recomputed from stored entries), every manifest fragment's chain/balance/discard through the real ManifestVerifier and through Blue.Books.verify over the canonical-setsum group, and tampered copies of fragments with one hex digit of one recorded digest (I, O, D, added, removed) changed; non-trivial = a state with >= 2 files, a fragment with >= 2 transactions, any tampered fragment; distinct by request",
